@@ -28,7 +28,7 @@ ObsCounted(st) == [s \in {st.gset[i].m : i \in 1..Len(st.gset)} |->
 ObsRSet(st)    == {st.rset[i].m : i \in 1..Len(st.rset)}
 ObsSigValid(st) == st.recSigValid /\ st.recRandValid /\ st.checkSig = ""
 
-KindOrder == <<"otherHash", "replay", "garbage", "offcurve", "badRand", "emptyRand", "nonMember", "honest">>
+KindOrder == <<"otherHash", "replay", "garbage", "offcurve", "badRand", "emptyRand", "swapped", "shiftRandom", "shiftSmall", "nonMember", "honest">>
 RECURSIVE JoinKinds(_, _, _)
 JoinKinds(S, i, sep) == IF i > Len(KindOrder) THEN ""
                         ELSE IF KindOrder[i] \in S THEN sep \o KindOrder[i] \o JoinKinds(S, i + 1, "+")
